@@ -1674,6 +1674,11 @@ def post_case(ctx, pending, scn, victim, script, bank, kw, flight_edits=()):
         try:
             if act[0] == "vpha":
                 vread()
+                if reader["active"]:
+                    # readAsync fixes the acceptable handshake types when it starts: a read that is
+                    # pending while the application requests authentication would refuse the answer
+                    v.gen.close()
+                    reader["active"] = False
                 if post is None:
                     try:
                         r = L.op(victim, v.conn.request_post_handshake_auth())
